@@ -1,10 +1,13 @@
 #!/bin/bash
-# tools/run_mutants.sh <parallelism> <ID> [<ID> ...] : evaluate /tmp/mut/<ID>/out/patch{1,2,3}
+# tools/run_mutants.sh <parallelism> <ID> [<ID> ...] : evaluate $MUT_BASE/<ID>/out/patch{1,2,3} (default /tmp/mut)
+# seeded/<ID>$MUT_SUFFIX-<k>/ receives the kept change
 cd "$(dirname "$0")/.."
 par=$1; shift
+base=${MUT_BASE:-/tmp/mut}
+suf=${MUT_SUFFIX:-}
 mkdir -p .cache/mutlogs
 for id in "$@"; do for k in 1 2 3; do
-  [ -f /tmp/mut/$id/out/patch$k.diff ] || continue
-  [ -f seeded/$id-$k/meta.json ] && continue
-  echo "$id $k"
-done; done | xargs -P "$par" -L 1 bash -c 'python3 tools/try_mutant.py /tmp/mut/$0/out $1 $0-$1 > .cache/mutlogs/$0-$1.log 2>&1; tail -1 .cache/mutlogs/$0-$1.log'
+  [ -f $base/$id/out/patch$k.diff ] || continue
+  [ -f seeded/$id$suf-$k/meta.json ] && continue
+  echo "$id $k $base $suf"
+done; done | xargs -P "$par" -L 1 bash -c 'python3 tools/try_mutant.py $2/$0/out $1 $0$3-$1 > .cache/mutlogs/$0$3-$1.log 2>&1; tail -1 .cache/mutlogs/$0$3-$1.log'
